@@ -1,6 +1,7 @@
 package props
 
 import (
+	"encoding/json"
 	corev1 "k8s.io/api/core/v1"
 	metav1 "k8s.io/apimachinery/pkg/apis/meta/v1"
 
@@ -31,4 +32,9 @@ func baseSet(ns, name string, replicas int32) *asv1.StatefulSet {
 // helperOrdinals: desired ordinals of a stored set, ascending (via the reference model).
 func helperOrdinals(set *asv1.StatefulSet) []int {
 	return model.Desired(int(*set.Spec.Replicas), parseSlots(set))
+}
+
+func worldFPAny(v interface{}) string {
+	b, _ := json.Marshal(v)
+	return string(b)
 }
